@@ -374,6 +374,9 @@ Proof.
   rewrite len_uint_spec by lia. unfold len. rewrite rev_length. reflexivity.
 Qed.
 
+Lemma len_uint_decimal : forall n, 0 <= n < two64 -> len_uint n = len (decimal n).
+Proof. intros n H. unfold decimal. replace (n <? 0) with false by lia. symmetry. apply len_udecimal. exact H. Qed.
+
 Lemma len_int_spec n : min_i64 <= n <= max_i64 -> len_int n = len (decimal n).
 Proof.
   intros Hn. unfold min_i64, max_i64 in Hn. unfold len_int, decimal.
